@@ -101,4 +101,64 @@ theorem F10_fixed :
               hashKey cfgDefault "GRAIN".toList p == hashKey cfgDefault "GRAIN0".toList q)) = some (true, true) := by
   decide +kernel
 
+/-! ### the upper-case re-spelling inside `Species.alias` -/
+
+/-- **C09 (default list).** With the default element list every replacement pair built inside `alias` maps a symbol
+    to itself: the alias of a default-list species is exactly `aliasOf` (prefix, basename, charge suffix). -/
+theorem alias_repl_default_identity : (aliasRepl cfgDefault).all (fun kv => kv.1 == kv.2) = true := by
+  decide +kernel
+
+theorem replaceStr_self (k : Str) (fuel : Nat) (s : Str) : replaceStr k k fuel s = s := by
+  induction fuel generalizing s with
+  | zero => rfl
+  | succ n ih =>
+    cases s with
+    | nil => rfl
+    | cons c rest =>
+      simp only [replaceStr]
+      split
+      · rfl
+      · split
+        · rename_i h
+          rw [ih]
+          exact List.prefix_iff_eq_append.mp (List.isPrefixOf_iff_prefix.mp h)
+        · rw [ih]
+
+theorem aliasFull_default (p : Parsed) (name : Str) : aliasFull cfgDefault p name = aliasOf cfgDefault p name := by
+  unfold aliasFull aliasOf aliasBase
+  have hall := alias_repl_default_identity
+  generalize aliasRepl cfgDefault = tbl at hall
+  have : ∀ b : Str, tbl.foldl (fun acc kv => replaceStr kv.1 kv.2 (acc.length + 1) acc) b = b := by
+    induction tbl with
+    | nil => intro b; rfl
+    | cons kv rest ih =>
+      intro b
+      simp only [List.all_cons, Bool.and_eq_true, beq_iff_eq] at hall
+      simp only [List.foldl_cons]
+      rw [← hall.1, replaceStr_self]
+      exact ih hall.2 b
+  rw [this]
+
+/-- the UCLCHEM-style upper-case configuration of the harness' networks -/
+def cfgUpper : Cfg :=
+  { elements := ["E", "H", "D", "HE", "C", "N", "O", "MG", "SI", "S", "CL"].map String.toList,
+    pseudo := ["CR", "CRP", "PHOTON", "CRPHOT"].map String.toList }
+
+/-- aliases of a list of names (names that do not parse give no alias) -/
+def aliasesOf (cfg : Cfg) (names : List String) : List (Option Str) :=
+  names.map fun n => (parse cfg n.toList).toOption.map fun p => aliasFull cfg p n.toList
+
+/-- **C09 (upper-case list).** The replacement re-spells the *basename* only: the ionisation suffix is appended
+    afterwards, so `S+` (alias `SII`) and `SI` (alias `SiI`) keep different identifiers – and so do all species of the
+    upper-case network the correspondence check renders. -/
+theorem alias_upper_examples :
+    aliasesOf cfgUpper ["S", "S+", "S++", "SI", "SI+", "SIO", "HE", "HE+", "CL", "CL+", "MG", "MG+", "HS", "HS+", "CS", "HCL", "E-"] =
+      ["SI", "SII", "SIII", "SiI", "SiII", "SiOI", "HeI", "HeII", "ClI", "ClII", "MgI", "MgII", "HSI", "HSII", "CSI", "HClI", "EM"].map
+        (fun a => some a.toList) := by
+  decide +kernel
+
+theorem alias_upper_nodup :
+    (aliasesOf cfgUpper ["S", "S+", "S++", "SI", "SI+", "SIO", "H", "HE", "HE+", "E-", "C", "C+", "CL", "CL+", "MG", "MG+", "HS", "HS+", "CS"]).Nodup := by
+  decide +kernel
+
 end Naunet.C09
